@@ -64,8 +64,21 @@ def run_rules(R, ts):
     dom = dominators(f)
     inv = [e for e in f.indirect_calls() if RU.indirect_via(f, e.node) == ("aws_task", "fn")]
     st = [e for e in f.field_accesses(field="scheduled", modes=("w",))]
-    R.check(len(inv) == 1 and len(st) >= 1 and all(ev_dominates(f, s, inv[0], dom) for s in st), "DETACH-FIRST", "scheduled-cleared-before-invoke", where(f, (inv or st or [None])[0]) if (inv or st) else f.name,
-            "scheduled=false precedes the invocation", "the task function is invoked before `scheduled` is cleared: a task that re-schedules itself from its function is marked unscheduled afterwards")
+    in_run = len(inv) == 1 and len(st) >= 1 and all(ev_dominates(f, s, inv[0], dom) for s in st)
+    uncleared = []
+    if len(inv) == 1 and not st:
+        # accepted as well: every caller inside the scheduler clears the flag of the task it passes before the call
+        for g in ts.values():
+            gd = None
+            for e in g.calls("aws_task_run"):
+                gd = gd or dominators(g)
+                tk = argstr(g, e.node, 0, addr=False)
+                cl = [s for s in g.field_accesses(field="scheduled", modes=("w",)) if g.show(s.node).startswith(tk + "->") and ev_dominates(g, s, e, gd) and (_assignment_of(g, s) or {}).get("a") and g.is_const(_assignment_of(g, s)["a"][1]) == 0]
+                if not cl:
+                    uncleared.append("%s() line %d" % (g.name, e.line))
+        in_run = not uncleared and any(g.calls("aws_task_run") for g in ts.values())
+    R.check(in_run, "DETACH-FIRST", "scheduled-cleared-before-invoke", where(f, (inv or st or [None])[0]) if (inv or st) else f.name,
+            "scheduled=false precedes the invocation on every route to the task function", "the task function is invoked before `scheduled` is cleared%s: a task that re-schedules itself from its function is marked unscheduled afterwards; a cancelled task stays marked scheduled, so a later cancel of it goes to the heap removal with a stale handle" % ((" (callers that do not clear it: %s)" % uncleared) if uncleared else ""))
     for s in st:
         a = _assignment_of(f, s)
         R.check(a is not None and f.is_const(a["a"][1]) == 0, "DETACH-FIRST", "scheduled-cleared-value", where(f, s), "scheduled set to false")
@@ -261,7 +274,7 @@ def cancel_rules(R, ts):
     R.check(all(run[0] in RU.reach_from(f, e) for e in rm + pq), "CANCEL", "detach-before-invoke", where(f, run[0]), "the task is detached before it is invoked")
 
 
-def has_tasks_rules(R, ts):
+def has_tasks_rules(R, ts, batch=True):
     f = ts["aws_task_scheduler_has_tasks"]
     dom = dominators(f)
     rets = f.returns()
@@ -316,7 +329,8 @@ def has_tasks_rules(R, ts):
     fed = {l for l in local_lists if any(l in argstr(ra, e.node, i) for e in ra.calls({"aws_linked_list_push_back", "aws_linked_list_swap_contents"}) for i in (0, 1) if i < len(e.node["a"]))}
     invoked_from = {l for l in fed if any(l in argstr(ra, e.node, 0) for e in ra.calls({"aws_linked_list_pop_front"}))}
     visible = {x["f"] for b in f.blocks.values() for el in list(b.elems) + ([b.cond] if b.cond is not None else []) for x in f.walk(el, follow_refs=True) if x["k"] == "member" and x.get("rec") == "aws_task_scheduler"}
-    R.check(not invoked_from, "HAS-TASKS", "sees-the-current-batch", "%s() / s_run_all()" % f.name, "no pending task sits in a container the query does not look at",
+    if batch:  # asked from inside a running task; not part of the thread scheduler's contract (C08 shares the other rules)
+        R.check(not invoked_from, "HAS-TASKS", "sees-the-current-batch", "%s() / s_run_all()" % f.name, "no pending task sits in a container the query does not look at",
             "s_run_all keeps the tasks of the current call in %s, local to that call, while it invokes them one by one; aws_task_scheduler_has_tasks only looks at %s: asked from inside a running task it reports `no tasks` / UINT64_MAX although later tasks of the same call are still pending" % (sorted(invoked_from), sorted(visible)))
     c = ts["aws_task_scheduler_clean_up"]
     okl = False
